@@ -189,6 +189,22 @@ class C04(Property):
                     yield {'k': 'rule', 'seed': [ri, hi, variant], 'rule_index': ri, 'host_index': hi, 'pre': '', 'post': ''}
 
     def gen(self, cs, ctx):
+        if cs.bool(40):
+            # near-miss numeric literals: one or two character edits of a valid number that keep it one number-like blob
+            from ..gen import literals
+            t = list(literals.gen_number(cs))
+            for _ in range(1 + cs.choice(2)):
+                j = cs.choice(3)
+                if j == 0 or not t:
+                    t.insert(cs.choice(len(t) + 1), cs.pick('_eE.+-jxob0_9'))
+                elif j == 1:
+                    del t[cs.choice(len(t))]
+                else:
+                    t[cs.choice(len(t))] = cs.pick('_eE.+-jxob0_')
+            s = ''.join(t)
+            if re.fullmatch(r'[0-9.][0-9a-zA-Z_.]*(?:[eE][+-][0-9a-zA-Z_.]*)?', s) and not s.startswith('..'):
+                return {'k': 'numbers', 'items': [s]}
+            return None
         seed = list(cs.bytes(24))
         pre = post = ''
         if cs.bool(100):
